@@ -7,6 +7,7 @@ Engine E2 (explicit-state exploration over event histories):
   end-to-end    - TabularInput.validate on files realising the same histories (one row / equal-onset rows / Delay shifted).
 """
 import itertools
+import os
 
 from mc import core
 
@@ -28,6 +29,21 @@ MARKS = ["Onset", "Offset", "Inset"]
 NAMES = ["A", "a", "B/x", "B/X", "B/y"]
 DEFS = ["(Definition/A, (Red))", "(Definition/B/#, (Label/#))"]
 SINGLES = [(m, n) for m in MARKS for n in NAMES]
+
+
+def declared_factor(symbol):
+    """The conversion factor written in HED8.3.0.xml for a unit modifier (read from the file, not through the library)."""
+    import xml.etree.ElementTree as ET
+    root = ET.parse(os.path.join(core.SCHEMA_DATA, "HED8.3.0.xml")).getroot()
+    for d in root.iter("unitModifierDefinition"):
+        if d.findtext("name") == symbol:
+            for a in d.findall("attribute"):
+                if a.findtext("name") == "conversionFactor":
+                    return float(a.findtext("value").replace("^", "e"))
+    raise KeyError(symbol)
+
+
+MEGA = declared_factor("M")
 
 
 def group_text(ev, delay=None, delay_tag="Delay"):
@@ -194,6 +210,9 @@ def realisations(tp, t):
     # the tag name in another letter case (tag names are case-insensitive)
     if len(tp) == 1:
         yield "delay-shifted-case", [(t - 0.5, group_text(tp[0], "0.5 s", "DELAY" if tp[0][0] == "Onset" else "delay"))]
+        # a unit symbol with an upper-case prefix that also exists in lower case (Ms is not ms); the number is 0.5 s divided by
+        # the factor the schema file declares for the prefix
+        yield "delay-shifted-prefix", [(t - 0.5, group_text(tp[0], f"{0.5 / MEGA!r} Ms"))]
     if len(tp) == 2 and tp[0][1].casefold() != tp[1][1].casefold():
         yield "mixed-delay-second", [(t - 0.5, group_text(tp[1], "0.5 s")), (t, texts[0])]
         yield "mixed-delay-first", [(t - 0.5, group_text(tp[0], "0.5 s")), (t, texts[1])]
@@ -465,7 +484,8 @@ def unsorted_files(ctx):
 
 def worst_kind(combo):
     ks = [k for k, _ in combo]
-    for k in ("mixed-delay-first", "mixed-delay-second", "delay-shifted-case", "delay-shifted-ms", "delay-shifted", "equal-onset-rows"):
+    for k in ("mixed-delay-first", "mixed-delay-second", "delay-shifted-prefix", "delay-shifted-case", "delay-shifted-ms", "delay-shifted",
+              "equal-onset-rows"):
         if k in ks:
             return k
     return "one-row"
